@@ -188,18 +188,41 @@ func readerPrimitives(w *World) (tok, rn map[*ssa.Function]bool) {
 			cands[fn] = true
 		}
 	}
-	for fn := range cands {
-		root := true
+	// a candidate is a primitive when it gets at the runes itself: some chain of calls from
+	// it reaches a rune reader without passing through another candidate (Read → getToken →
+	// Lexer.Advance → reader.Read; ReadAhead only gets there through Read). A candidate that
+	// merely converts the current token (no rune is read) is not a reader at all.
+	var reaches func(fn *ssa.Function, self *ssa.Function, seen map[*ssa.Function]bool) bool
+	reaches = func(fn, self *ssa.Function, seen map[*ssa.Function]bool) bool {
+		if fn == nil || seen[fn] || len(seen) > 400 {
+			return false
+		}
+		seen[fn] = true
 		for _, b := range fn.Blocks {
 			for _, ins := range b.Instrs {
-				if c, ok := ins.(*ssa.Call); ok {
-					if cal := c.Call.StaticCallee(); cal != nil && cands[cal] && cal != fn {
-						root = false
-					}
+				c, ok := ins.(*ssa.Call)
+				if !ok {
+					continue
+				}
+				cal := c.Call.StaticCallee()
+				if cal == nil || cal.Pkg == nil || !inModule(cal.Pkg.Pkg.Path()) {
+					continue
+				}
+				if rn[cal] {
+					return true
+				}
+				if cands[cal] && cal != self {
+					continue
+				}
+				if reaches(cal, self, seen) {
+					return true
 				}
 			}
 		}
-		if root {
+		return false
+	}
+	for fn := range cands {
+		if reaches(fn, fn, map[*ssa.Function]bool{}) {
 			tok[fn] = true
 		}
 	}
@@ -255,9 +278,9 @@ func constVal(c *ssa.Const) Val {
 	}
 	switch c.Value.Kind() {
 	case constant.Bool:
-		return Val{k: kBool, b: constant.BoolVal(c.Value)}
+		return Val{k: kBool, b: cBool(c.Value)}
 	case constant.Int:
-		if i, ok := constant.Int64Val(c.Value); ok {
+		if i, ok := cInt64(c.Value); ok {
 			return Val{k: kInt, i: i}
 		}
 	case constant.String:
@@ -312,6 +335,9 @@ func stdlibFact(fn *ssa.Function, args []Val) (Val, bool) {
 	n := fn.String()
 	if n == "fmt.Errorf" || n == "errors.New" {
 		return Val{k: kNonNil}, true
+	}
+	if len(args) == 2 && args[0].k == kStr && args[1].k == kInt && n == "strings.ContainsRune" {
+		return vBool(strings.ContainsRune(args[0].s, rune(args[1].i))), true
 	}
 	if len(args) == 1 && args[0].k == kInt {
 		r := rune(args[0].i)
@@ -631,8 +657,29 @@ func (a *AE) explore(fr *frame, b0 *ssa.BasicBlock, idx0 int, e0 aenv, onRet fun
 						walk(b.Succs[1], b, e, 0)
 					}
 				} else {
-					walk(b.Succs[0], b, e, 0)
-					walk(b.Succs[1], b, e, 0)
+					// `x != nil` / `x == nil` on a value nothing is known about: on the edge
+					// where the test says non-nil the value is non-nil (an error that was
+					// tested before `return nil, err` is a set error)
+					et, ef := e, e
+					if bo, ok := x.Cond.(*ssa.BinOp); ok && (bo.Op == token.NEQ || bo.Op == token.EQL) {
+						var tested ssa.Value
+						if k, ok := bo.Y.(*ssa.Const); ok && k.IsNil() {
+							tested = bo.X
+						} else if k, ok := bo.X.(*ssa.Const); ok && k.IsNil() {
+							tested = bo.Y
+						}
+						if tested != nil && a.get(e, tested).k == kUnknown {
+							r := e.clone()
+							r[tested] = Val{k: kNonNil}
+							if bo.Op == token.NEQ {
+								et = r
+							} else {
+								ef = r
+							}
+						}
+					}
+					walk(b.Succs[0], b, et, 0)
+					walk(b.Succs[1], b, ef, 0)
 				}
 				return
 			case *ssa.Jump:
@@ -854,7 +901,44 @@ func (a *AE) call(fr *frame, x *ssa.Call, e aenv) (dead bool) {
 	}
 	callee := x.Call.StaticCallee()
 	if callee == nil {
+		// a call through a function value (a predicate stored in a rule table): when the
+		// call graph names a few module functions and they all answer the same for these
+		// arguments, that is the answer
 		delete(e, x)
+		args := make([]Val, len(x.Call.Args))
+		interesting := false
+		for i, ar := range x.Call.Args {
+			args[i] = a.get(e, ar)
+			if args[i].k != kUnknown && args[i].k != kNonNil {
+				interesting = true
+			}
+		}
+		if !interesting {
+			return false
+		}
+		var outs []Val
+		if n := a.w.CallGraph().Nodes[x.Parent()]; n != nil {
+			for _, ed := range n.Out {
+				if ed.Site != ssa.CallInstruction(x) {
+					continue
+				}
+				cal := ed.Callee.Func
+				if cal == nil || cal.Pkg == nil || !inModule(cal.Pkg.Pkg.Path()) || len(cal.Blocks) == 0 || len(cal.Params) != len(args) || len(outs) >= 6 {
+					return false
+				}
+				sm := a.evalFunc(cal, args)
+				if sm.panics || sm.exhausted || sm.ret.k == kUnknown {
+					return false
+				}
+				outs = append(outs, sm.ret)
+			}
+		}
+		if len(outs) == 0 {
+			return false
+		}
+		if r := joinVals(outs); r.k == kBool || r.k == kInt {
+			e[x] = r
+		}
 		return false
 	}
 	// handing a nil *T to the parser as last evaluated value is as good as dereferencing it:
